@@ -92,6 +92,8 @@ class _Proxy(object):
 
 class _Out(object):
     """Records one entry per write() call (Controller.output writes message + newline)."""
+    encoding = 'utf-8'
+
     def __init__(self):
         self.msgs = []
 
@@ -174,6 +176,37 @@ def run_real(line, script, url=DEFAULT_URL, responder=None):
         escaped = '%s: %s' % (type(e).__name__, e)
     return {'msgs': list(out.msgs), 'status': c.exitstatus, 'calls': srv.calls, 'served': srv.served,
             'escaped': escaped}
+
+
+def run_main(words, script, url=DEFAULT_URL):
+    """The one-shot entry point: supervisorctl.main(['-s', url] + words) with a real ClientOptions
+    (real realize(): argv parsing, no config file) whose getServerProxy returns the scripted proxy.
+    Returns dict(msgs, exit_code, calls); exit_code is what sys.exit() was called with."""
+    import sys
+    from supervisor import supervisorctl
+    from supervisor.options import ClientOptions
+    srv = ScriptedServer(script)
+
+    class Opts(ClientOptions):
+        def getServerProxy(self):
+            return _Proxy(srv)
+
+    out = _Out()
+    old = sys.stdout
+    supervisorctl.http_client = _HttpShim(srv)
+    code = 'main() returned without sys.exit'
+    escaped = None
+    try:
+        sys.stdout = out
+        try:
+            supervisorctl.main(args=['-s', url] + list(words), options=Opts())
+        except SystemExit as e:
+            code = e.code
+        except BaseException as e:
+            escaped = '%s: %s' % (type(e).__name__, e)
+    finally:
+        sys.stdout = old
+    return {'msgs': list(out.msgs), 'exit_code': code, 'calls': srv.calls, 'escaped': escaped}
 
 
 def enc_warning():
